@@ -20,4 +20,4 @@ Definition md_block_text (cmd : text) (conts : list text) (body : list bline) : 
   [P_DOLLAR ++ cmd] ++ map (fun x => P_GT ++ x) conts ++ map render_body body.
 Definition gen_md_doc (m : mode) (title : option text) (cmd : text) (conts : list text) (lines : list (list N)) (code : N) : list elem :=
   (match title with Some t => [EHeading 1 t; EBlank] | None => [] end)
-  ++ [EScrut (S (max_bt 2 (md_block_text cmd conts (gen_body m lines code)))) None [] (Some (cmd, conts, gen_body m lines code)) []].
+  ++ [EScrut (S (max_bt 2 (md_block_text cmd conts (gen_body m lines code)))) None [] [] (Some (cmd, conts, gen_body m lines code)) []].
